@@ -39,6 +39,8 @@ var walkExceptions = []walkException{
 	{"dxil.blockHasBreakContinue/StatementKind", "StmtLoop", "break/continue inside a nested loop bind to that loop, so nested loops are deliberately not descended"},
 	{"msl/internal/codegen.adjustBlockHandles/StatementKind", "StmtImageAtomic.Fun", "image atomics carry no Compare handle (rule imageatomic.nocompare)"},
 	{"dxil/internal/passes/dce.markStmtRoots/StatementKind", "StmtImageAtomic.Fun", "image atomics carry no Compare handle (rule imageatomic.nocompare)"},
+	{"dxil/internal/passes/dce.remarkSurvivors/StatementKind", "StmtImageAtomic.Fun", "delegates every non-control-flow statement to markStmtRoots: same reason (rule imageatomic.nocompare)"},
+	{"dxil/internal/passes/dce.remarkSurvivors/StatementKind", "StmtEmit", "delegates every non-control-flow statement to markStmtRoots: an Emit range is what the pass decides about, not a root"},
 	{"dxil/internal/passes/dce.markStmtRoots/StatementKind", "StmtEmit", "dead-code elimination: an Emit range is what the pass decides about, not a root; emitted expressions are kept only through the statements and expressions that use them"},
 }
 
